@@ -436,7 +436,10 @@ Definition step (st : tstate) (o : op) : tstate * ores :=
       let keys := dir_cols (names_of st) in
       if dir_stores then (refresh st, RKeys (map fst (cmap (refresh st))))
       else (mkT (map tame (cols st)) (cmap st), RKeys keys)
-  | ORepr => (st, RRow (repr_dot_row (names_of st)))
+  | ORepr =>
+      (* _printr asks for t.shape, which builds Row(t, 0) when the table has rows (the histories'
+         tables always have one): Row.__init__ goes through _current_column_map() *)
+      let st1 := refresh st in (st1, RRow (repr_dot_row (names_of st1)))
   | OGetattr attr =>
       let st1 := refresh st in (st1, oidx (getattr_with (names_of st1) (cmap st1) attr))
   | ORow attr =>
